@@ -68,7 +68,42 @@ static void dump_syms(AsmContext &ctx, const std::vector<std::string> &names, FI
   fprintf(out, "},");
 }
 
+static void asm_one(const Case &c, const std::string &source, FILE *out);
+
+// body may hold several sources separated by lines "@@@NEXT@@@": they are assembled one
+// after the other in this process (each with a fresh AsmContext, as assemble_code() of
+// naken_util and library users do); only the last one is reported
 static void asm_case(const Case &c, FILE *out)
+{
+  const std::string sep = "\n@@@NEXT@@@\n";
+  std::string body = c.body;
+  size_t p;
+  while ((p = body.find(sep)) != std::string::npos)
+  {
+    std::string first = body.substr(0, p + 1);
+    body = body.substr(p + sep.size());
+    capture_begin();
+    AsmContext *ctx = new AsmContext();
+    ctx->quiet_output = 1;
+    ctx->pass = 1;
+    ctx->init();
+    tokens_open_buffer(ctx, first.c_str());
+    tokens_reset(ctx);
+    if (ctx->assemble() == 0)
+    {
+      ctx->symbols.lock();
+      ctx->symbols.scope_reset();
+      ctx->pass = 2;
+      ctx->init();
+      ctx->assemble();
+    }
+    delete ctx;
+    capture_end(10);
+  }
+  asm_one(c, body, out);
+}
+
+static void asm_one(const Case &c, const std::string &source, FILE *out)
 {
   std::vector<std::string> names = split(opt_get(c.opts, "syms"), ';');
   size_t imgmax = (size_t)atol(opt_get(c.opts, "imgmax", "4096").c_str());
@@ -85,7 +120,7 @@ static void asm_case(const Case &c, FILE *out)
 
   ctx.pass = 1;
   ctx.init();
-  tokens_open_buffer(&ctx, c.body.c_str());
+  tokens_open_buffer(&ctx, source.c_str());
   tokens_reset(&ctx);
   r1 = ctx.assemble();
   if (r1 == 0 && ctx.link() != 0) { r1 = -2; }
@@ -94,8 +129,19 @@ static void asm_case(const Case &c, FILE *out)
   dump_syms(ctx, names, out, "sym1");
   fprintf(out, "\"end1\":%u,", ctx.address);
 
+  const int SENTINEL = -77;
+  bool leftover = opt_get(c.opts, "leftover", "0") == "1";
   if (r1 == 0)
   {
+    if (leftover)
+    {
+      // re-mark what pass 1 wrote: a byte that still carries this mark after pass 2 is in
+      // the image only because pass 1 put it there
+      for (MemoryPage *p = ctx.memory.pages; p != NULL; p = p->next)
+      {
+        for (int n = 0; n < PAGE_SIZE; n++) { if (p->debug_line[n] != DL_EMPTY) { p->debug_line[n] = SENTINEL; } }
+      }
+    }
     ctx.symbols.lock();
     ctx.symbols.scope_reset();
     ctx.pass = 2;
@@ -110,6 +156,20 @@ static void asm_case(const Case &c, FILE *out)
 
   if (r1 == 0 && r2 == 0) { dump_image(ctx, out, imgmax); }
   else { fprintf(out, "\"img\":[],\"trunc\":0,"); }
+
+  if (leftover)
+  {
+    fprintf(out, "\"left\":[");
+    int nleft = 0;
+    for (MemoryPage *p = ctx.memory.pages; p != NULL; p = p->next)
+    {
+      for (int n = 0; n < PAGE_SIZE; n++)
+      {
+        if (p->debug_line[n] == SENTINEL && nleft < 16) { fprintf(out, "%s%u", nleft ? "," : "", p->address + n); nleft++; }
+      }
+    }
+    fprintf(out, "],");
+  }
 
   int errs = 0;
   for (size_t p = 0; (p = text.find("rror", p)) != std::string::npos; p += 4) { errs++; }
